@@ -95,6 +95,8 @@ def write_matrix():
             cb = "(not re-run)"
         if lat.get("stale"):
             cb += " [" + lat["stale"] + "]"
+        if m.get("outside_property"):
+            cb += " [not counted: " + m["outside_property"] + "]"
         imp = "caught" if any(v["exit"] == 1 for v in m["checks_run"].values()) else "missed"
         out.append("| %s | %s | %s | %s | %s |" % (m["id"], m["breaks_property"], what, cb, imp))
     open(ROOT + "/seeded/MATRIX.md", "w").write("\n".join(out) + "\n")
